@@ -29,7 +29,8 @@ Definition run_at {A} (p : parser A) (stream : list Z) (pos : Z) : res (A * Z) :
   if pos <? 0 then Err (EPy "ValueError")                 (* BytesIO.seek(negative) *)
   else if 2 ^ 63 <=? pos then Err (EPy "OverflowError")    (* seek beyond ssize_t *)
   else
-    let rest := skipn (Z.to_nat pos) stream in
+    (* seeking past the end is allowed; nothing can be read there *)
+    let rest := if zlen stream <? pos then [] else skipn (Z.to_nat pos) stream in
     match p rest with
     | Ok (v, rest') => Ok (v, pos + (zlen rest - zlen rest'))
     | Err e => Err e
@@ -37,7 +38,7 @@ Definition run_at {A} (p : parser A) (stream : list Z) (pos : Z) : res (A * Z) :
 
 (* stream.read(n): never fails, returns what is there *)
 Definition read_n (n : Z) : parser (list Z) :=
-  fun bs => Ok (firstn (Z.to_nat n) bs, skipn (Z.to_nat n) bs).
+  fun bs => let k := Z.to_nat (Z.min n (zlen bs)) in Ok (firstn k bs, skipn k bs).
 
 (* ---------------------------------------------------------------- dwarf/structs.py *)
 Record structs : Type := mkstructs {
@@ -70,7 +71,13 @@ Section Structs.
   (* def initial_length_field_size(self): return 4 if self.dwarf_format == 32 else 12 *)
   Definition initial_length_field_size : Z := if dwarf_format St =? 32 then 4 else 12.
   (* Dwarf_dw_form['DW_FORM_block'] = PrefixedArray(Dwarf_uint8('elem'), Dwarf_uleb128('')) *)
-  Definition DW_FORM_block : parser (list Z) := of_dec (block_decode uleb_decode).
+  Definition DW_FORM_block : parser (list Z) :=
+    fun bs => match uleb_decode bs with
+              | None => Err EParse
+              | Some (n, r) =>
+                  if zlen r <? n then Err EParse            (* ArrayError: fewer than n elements *)
+                  else Ok (firstn (Z.to_nat n) r, skipn (Z.to_nat n) r)
+              end.
   Definition CString : parser (list Z) := of_dec cstring_decode.
 End Structs.
 
